@@ -65,6 +65,10 @@ def class_table(mode, verdicts):
     if mode == "insertion":
         add("missing:start", "eany")
     add("othermode", "e400")
+    # HTTP framing: the same classes sent with Transfer-Encoding: chunked (no Content-Length)
+    for c in [c for c in t if c["id"] in ("valid", "extra-field", "bytes:garbage", "bytes:empty", "bytes:trailing", "json:null", "val:hash:plus1", "val:pre:plus1",
+                                          "shape:ids:+1", "missing:hash", "numbad:pre:zz", "method:PUT:valid")]:
+        t.append(dict(id="chunked:" + c["id"], method=c["method"], expect=c["expect"]))
     return t
 
 
